@@ -115,8 +115,40 @@ def run_case(img, case, secrets=None, max_steps=3000000, prepare=None):
 
 
 def stale_dependence(val):
-    """names of stale_* symbols that a value syntactically depends on"""
-    return sorted(v for v in free_vars(val) if v.startswith("stale_"))
+    """names of stale_* symbols that a value depends on: syntactic occurrence after simplification, confirmed by the solver
+    (two executions that differ only in the stale symbols produce different values)"""
+    if is_c(val):
+        return []
+    st = sorted(v for v in free_vars(val) if v.startswith("stale_"))
+    if not st:
+        return []
+    sv = z3.simplify(val)
+    if z3.is_bv_value(sv):
+        return []
+    st = sorted(v for v in free_vars(sv) if v.startswith("stale_"))
+    if not st:
+        return []
+    # semantic confirmation
+    consts = {}
+    stack, seen = [sv], set()
+    while stack:
+        x = stack.pop()
+        if x.get_id() in seen:
+            continue
+        seen.add(x.get_id())
+        if z3.is_const(x) and x.decl().kind() == z3.Z3_OP_UNINTERPRETED:
+            if x.decl().name().startswith("stale_"):
+                consts[x.decl().name()] = x
+        else:
+            stack.extend(x.children())
+    ren = [(c, z3.BitVec(n + "_other", c.size()) if z3.is_bv(c) else z3.Bool(n + "_other")) for n, c in consts.items()]
+    s = z3.Solver()
+    s.set("timeout", 20000)
+    s.add(sv != z3.substitute(sv, *ren))
+    r = s.check()
+    if r == z3.unsat:
+        return []
+    return st
 
 
 def prove_equal(a, b, bits, timeout_ms=60000, hyps=(), sim=None):
@@ -225,6 +257,21 @@ class CutTable:
 
     def _sig(self, t):
         import bveval
+        if getattr(self, "fast", False):
+            # UF-free terms: evaluate inside z3 (substitute the random assignment, simplify to a numeral)
+            if not hasattr(self, "pairs"):
+                self.pairs = {}
+            r = self._subst(t)
+            if not z3.is_bv_value(r):
+                for n_ in free_vars(r):
+                    if n_ not in self.pairs:
+                        if n_ not in self.env:
+                            self.env[n_] = self.rnd.getrandbits(512)
+                        v_ = self._var_of(r, n_)
+                        self.pairs[n_] = (v_, z3.BitVecVal(self.env[n_] & ((1 << v_.size()) - 1), v_.size()))
+                r = self._subst(t)
+            if z3.is_bv_value(r):
+                return r.as_long()
         if not hasattr(self, "memo"):
             self.memo = {}
             self.fvseen = set()
@@ -232,6 +279,34 @@ class CutTable:
             if n_ not in self.env:
                 self.env[n_] = self.rnd.getrandbits(512)
         return bveval.evaluate(t, self.env, self.memo)
+
+    def _subst(self, t):
+        """simplify(t[vars := random values]) through the C API (the Python wrapper re-checks every pair on every call)"""
+        import z3.z3core as core
+        n = len(self.pairs)
+        if getattr(self, "_arr_n", -1) != n:
+            vals = list(self.pairs.values())
+            self._from = (core.Ast * n)(*[v.as_ast() for v, _ in vals])
+            self._to = (core.Ast * n)(*[c.as_ast() for _, c in vals])
+            self._keepalive = vals
+            self._arr_n = n
+        if n == 0:
+            return z3.simplify(t)
+        ctx = t.ctx
+        r = core.Z3_substitute(ctx.ref(), t.as_ast(), n, self._from, self._to)
+        return z3.simplify(z3.BitVecRef(r, ctx))
+
+    def _var_of(self, t, name):
+        stack, seen = [t], set()
+        while stack:
+            x = stack.pop()
+            if x.get_id() in seen:
+                continue
+            seen.add(x.get_id())
+            if z3.is_const(x) and x.decl().kind() == z3.Z3_OP_UNINTERPRETED and x.decl().name() == name:
+                return x
+            stack.extend(x.children())
+        raise KeyError(name)
 
     def hypotheses(self):
         """definitions of the cut symbols (each proved wherever it was substituted): sym == defining specification term"""
@@ -246,6 +321,8 @@ class CutTable:
             self.order_index = {}
         self.order_index[sym.decl().name()] = len(self.order_index)
         self.env[sym.decl().name()] = self._sig(spec_term)
+        if getattr(self, "fast", False):
+            self.pairs[sym.decl().name()] = (sym, z3.BitVecVal(self.env[sym.decl().name()], spec_term.size()))
         self.by_sig.setdefault(self.env[sym.decl().name()], []).append((label, spec_term, sym))
         self.symbols[label] = sym
         return sym
